@@ -14,6 +14,9 @@ PROP = 'C04'
 
 
 def build(params):
+    if params.get('scripted_peer'):
+        from .c09 import TermPeerWorld
+        return TermPeerWorld(dict(params, prop=PROP))
     world = TcpclWorld(params)
     world.monitors = [WireMonitor(PROP), DeliveryMonitor(PROP, expect_all=False)]
     return world
@@ -44,6 +47,15 @@ def scenarios(tier):
                      seg_mru={'A': 4, 'B': 2}, weight=25))
     out.append(_scen('mru-asym-A3|B1', {'A': [s3], 'B': [s1]}, dev_bound=0, tx_init={'A': 3, 'B': 8},
                      seg_mru={'A': 2, 'B': 4}, weight=40))
+    # a scripted conforming peer that refuses a transfer it has received completely while the endpoint is in the
+    # middle of its next, multi-segment transfer (every callback of the endpoint is a step): the transfer that was
+    # not refused goes out as contiguous segments ending with END, intact
+    for role in ('passive', 'active'):
+        for chunk in (10240, 9):
+            nm = 'refusal-of-a-completed-transfer/%s/chunk%d' % (role, chunk)
+            out.append(dict(name=nm, kind='graph', dev_bound=0, max_states=500000, liveness=False, weight=20,
+                            params=dict(scripted_peer=True, role=role, bundles=[hexn(3), hexn(33), hexn(2)], chunk=chunk,
+                                        refuse='completed', user_term=False, peer_term=False)))
     # node IDs outside ASCII (an IRI; two and three octets per character) and a long one (255 / 256 octets)
     out.append(_scen('node-ids-not-ascii/A1|B1', {'A': [s1], 'B': [s1]}, dev_bound=0, weight=10,
                      node_ids={'A': 'dtn://n\u0153ud-\u00e9/', 'B': 'dtn://\u8282\u70b9/'}))
